@@ -5,8 +5,8 @@ Import ListNotations.
 
 (* ---- a closed channel is never written again ------------------------------------------------------- *)
 
-Lemma archive_incl : forall st ei x, In x (closed st) -> In x (archive st ei).
-Proof. intros st ei x H. unfold archive. destruct (e_out ei) as [[j s]|]; simpl; auto. Qed.
+Lemma archive_incl : forall st w ei x, In x (closed st) -> In x (archive st w ei).
+Proof. intros st w ei x H. unfold archive. destruct (e_out ei) as [[j s]|]; simpl; auto. Qed.
 
 Lemma step_closed_mono : forall st o st', step st o = Some st' ->
   forall x, In x (closed st) -> In x (closed st').
